@@ -54,6 +54,10 @@ def Val.parse (s : String) : Option Val :=
   | ["e"] => some .error | ["n"] => some .null | ["x"] => some .absent
   | _ => none
 
+/-- The text `AcquireStringValue` reads (printrep): defined for STRING and VOID. -/
+def Val.text? : Val → Option Bytes
+  | .str s => some s | .void => some [] | _ => none
+
 /-- Outcome of applying an operator in the model. -/
 inductive Out where
   | val (v : Val)
